@@ -95,12 +95,13 @@ def run(ctx, rep):
                'disk loader precedes the buffer loader on the mixed path' if d_before else 'the buffer part is loaded before (or without) the disk part')
 
     # ------------------------------------------------------------ R02.b accumulator offsets
-    rep.rule('R02.b', 'accumulator offsets: the base offset follows the first buffered message whenever the buffer was empty, the last offset the last appended message; reset only at materialisation; no writer outside the accumulator; the batch iterator advances by the record it read', floor=8, analysis='A10')
+    rep.rule('R02.b', 'accumulator offsets: the base offset follows the first buffered message whenever the buffer was empty, the last offset the last appended message; reset only at materialisation; no writer outside the accumulator; the batch iterator advances by the record it read', floor=9, analysis='A10')
     BA = 'server::streaming::batching::batch_accumulator::BatchAccumulator'
     ACC = {
         'base_offset': {BA + '::append': ['[T]::first(items).offset'], BA + '::materialize_batch_and_update_state': ['0']},
         'current_offset': {BA + '::append': ['[T]::last(items).offset'], BA + '::materialize_batch_and_update_state': ['0']},
         'current_timestamp': {BA + '::append': ['[T]::last(items).timestamp'], BA + '::materialize_batch_and_update_state': ['0']},
+        'current_size': {BA + '::materialize_batch_and_update_state': ['0']},   # grows by add_assign in append only; what the accumulator weighs is what it holds
     }
     forms.check_table(ctx, rep, 'R02.b', BA, ACC)
     # the iterator over a stored batch advances by exactly the record it has just read (length prefix 4 + length)
